@@ -322,6 +322,8 @@ def impl_batch(c):
         for _ in range(int(g.integers(2, 5))):
             r = sorted(int(v) for v in g.choice(range(0, n + 1), size=k, replace=False)) if g.random() < 0.7 else [int(v) for v in g.choice(pool, size=k)]
             rows.append(r)
+        if g.random() < 0.25:  # the first row again at the end (repeated cuts are ordinary input)
+            rows.append(list(rows[0]))
         cls, v = classify(lambda: sc.evaluate(np.array(rows)))
         singles = [classify(lambda r=r: sc.evaluate(np.array([r]))) for r in rows]
         same = None
